@@ -449,6 +449,29 @@ func c41TlsNegoFacts(id string) func(repo string) (string, error) {
 			return "", fmt.Errorf("tls_server_rule.go: SNI lower-cased on one side of the rule map only (lookup=%v, load=%v)", lk, ld)
 		}
 		fmt.Fprintf(&b, "\n/-- TLSServerRuleMap lower-cases the SNI (getRuleBySni) and the configured names (Update) before the map lookup;\n    false = both are used verbatim (case-sensitive lookup) -/\ndef sniRuleLookupNormalised : Bool := %v\n", lk)
+		// order of operations in readClientHello: the connection's server name must be set before anything that looks
+		// at it through the Conn (ServerRule.Get, rule.NextProtos.Get, MultiCert.Get)
+		var setPos, firstUse token.Pos
+		ast.Inspect(rch, func(nd ast.Node) bool {
+			switch v := nd.(type) {
+			case *ast.AssignStmt:
+				if len(v.Lhs) == 1 && c41ExprString(v.Lhs[0]) == "c.serverName" && (setPos == 0 || v.Pos() < setPos) {
+					setPos = v.Pos()
+				}
+			case *ast.CallExpr:
+				switch c41ExprString(v.Fun) {
+				case "config.ServerRule.Get", "rule.NextProtos.Get", "config.MultiCert.Get", "tlsMultiCertificate.Get":
+					if firstUse == 0 || v.Pos() < firstUse {
+						firstUse = v.Pos()
+					}
+				}
+			}
+			return true
+		})
+		if firstUse == 0 {
+			return "", fmt.Errorf("readClientHello: no ServerRule.Get / NextProtos.Get / MultiCert.Get call found")
+		}
+		fmt.Fprintf(&b, "\n/-- readClientHello assigns `c.serverName` (from the hello's SNI) before the first of ServerRule.Get(c),\n    rule.NextProtos.Get(c), MultiCert.Get(c) — the lookups that read it through the Conn -/\ndef serverNameSetBeforeLookups : Bool := %v\n", setPos != 0 && setPos < firstUse)
 		b.WriteString(footer(id))
 		return b.String(), nil
 	}
